@@ -332,7 +332,10 @@ func runCrashSuite(seed uint64, n int, out *Out, stats *Stats) {
 			}
 		}
 		// fixed probes: the semantically empty messages
-		for _, probe := range []string{"null", "{}", "[]", `""`, "0", `{"Transaction":null}`, `{"Transaction":{}}`, `{"Transaction":{"id":"","inputs":[null],"outputs":[null],"timestamp":0}}`} {
+		for _, probe := range []string{"null", "{}", "[]", `""`, "0", `{"Transaction":null}`, `{"Transaction":{}}`, `{"Transaction":{"id":"","inputs":[null],"outputs":[null],"timestamp":0}}`,
+			// extreme numbers where a block height (uint64) is expected
+			"18446744073709551615", "18446744073709551614", "18446744073709551616", "9223372036854775807", "9223372036854775808", "4294967296", "-1", "1e30", "1.5",
+			fmt.Sprintf("%d", len(v.AllBlocks())), fmt.Sprintf("%d", len(v.AllBlocks())-1), fmt.Sprintf("%d", uint64(len(v.AllBlocks()))+^uint64(0)-set.Limit+1)} {
 			pb := []byte(probe)
 			c.guard("handler:transaction", "transaction endpoint body "+probe, pb, func() {
 				_, _ = txCtl.HandleTransactionRequest(context.TODO(), gp2p.Data{Bytes: pb})
